@@ -136,7 +136,7 @@ CHECKS = {
     "C19": (
         True,
         "Lean 4 proof that sorted/filter/last selects the greatest key <= v, is invariant under permutation of the declaration order, leaves the state unchanged when no key qualifies, and is class-local + exhaustive correspondence over all subsets and orders of a 4-key alphabet",
-        "Theorems Props.C19: closest_spec, closest_none, closest_perm, greatest_unique, greatestBelow_spec, closest_eq_greatestBelow, setVersion_active, setVersion_own, setVersion_isolated (parent and siblings unaffected). Exhaustive: every subset x every declaration order x 9 requests x sequences x three families on a fresh parent/child/sibling trio, observing the active list object and the types File.read actually uses.",
+        "Theorems Props.C19: closest_spec, closest_none, closest_perm, greatest_unique, greatestBelow_spec, closest_eq_greatestBelow, setVersion_active, setVersion_own, setVersion_isolated (parent and siblings unaffected), trace_eq / main (every history of selections over a class hierarchy) and progTrace_eq / main_prog (every PROGRAM that also changes the tables between selections — a whole table assigned on a class, a key added / re-bound / deleted in place in the table a class sees, the component list assigned: each selection reads the table as it is when it is made; tableOps_frame: changing a table moves no active list). Exhaustive: every subset x every declaration order x 9 requests x sequences x three families on a fresh parent/child/sibling trio, observing the active list object and the types File.read actually uses.",
         "Trusted: Lean kernel + standard axioms; Python str order = List Char lexicographic order (checked by the correspondence); single-inheritance lookup model.",
         "6/C19",
     ),
